@@ -164,7 +164,13 @@ theorem C13_schedule_independent (cfg : Cfg) (s1 s2 : List Ev) (u : Tid)
     no pthread primitive ran into undefined behaviour: for every Mutex `m`, the threads that are inside a section of `m`
     — have acquired it by `lock`, a successful `trylock` or the entry of a `with` block and not yet released it — are at
     most one, none is inside twice, and the one inside is the holder of the pthread mutex.
-    (`inside t m` counts acquisitions minus releases in the trace.) -/
+    (`inside t m` counts acquisitions minus releases in the trace.)
+    This is the invariant of the `holder` guard of `step` (a `lock` that finds a holder is `blocked`, an `unlock` by a
+    non-holder is `ub` and changes nothing — which is why the proof does not use `_hub`; the hypothesis states the
+    domain: past an `ub` the pthread mutex is in no defined state and the model's `holder` means nothing).  What ties
+    the guard to the code: `Mutex_Lock/Trylock/Unlock` are single calls of the pthread primitive on the object's own
+    mutex (`C13_source_shape_as_modelled`, oracle `c13-wrapper`), `with` is `start_in`/`stop_in` = the same two functions
+    (`Mutex_instances`), and the in-section flag / counter oracles on real threads. -/
 theorem C13_mutex (cfg : Cfg) (s1 s2 : List Ev) (_hub : noUB (run cfg (s1 ++ s2) G.init).2 = true) (m : Nat) :
     (∀ t, inside t m (run cfg s1 G.init).2 = if (run cfg s1 G.init).1.holder m = some t then 1 else 0) ∧
     (∀ t1 t2, inside t1 m (run cfg s1 G.init).2 ≥ 1 → inside t2 m (run cfg s1 G.init).2 ≥ 1 → t1 = t2) := by
@@ -317,7 +323,12 @@ theorem C13_join_publishes_object_refuted : ¬ C13_join_publishes_statement cfgM
 
 /-- **C13 teardown / own collector.** In every schedule, every object that thread `t`'s collector ever finalised — by
     `del`, by a collection, or by the teardown in `Thread_Init_Run` — and every object in its registry was allocated by
-    `t` itself: no thread finalises another thread's objects. -/
+    `t` itself: no thread finalises another thread's objects.
+    (Invariant of the model's `new`, which registers with the registry of the component it is handed; tied to the code
+    by the extracted `alloc_by_register` / `del_by` / `GC_Current` texts: registration and removal go through
+    `current(GC)` = `get(current(Thread), "__GC")`, and by the destructor ledger keyed by owner on real threads.  A
+    Thread object `new(Thread, f)` is such an object of its *maker*: its finalisation by the maker's collector frees the
+    other thread's table — `wrapperKilled`, `ub`.) -/
 theorem C13_teardown_own (cfg : Cfg) (s : List Ev) (t : Tid) :
     (∀ o ∈ ((run cfg s G.init).1.thr t).fin, o.owner = t) ∧
     (∀ g, ((run cfg s G.init).1.thr t).gc = some g → ∀ e ∈ g.reg, e.1.owner = t) := by
